@@ -100,4 +100,11 @@ META = {
             "note": "At junctions (within 1e-9 T) the specification is two-valued (concat_global jumps, crop boundaries on knots, zero-length operands): any "
                     "one-sided limit of the model is accepted for the value and derivatives are not judged there. Sampled histories only.",
             "technique": "runtime monitoring: history + executable model (shadow expression tree in long double), ASan/UBSan"},
+    "C14": {"text": "Exploration: fit_spline_1d constraint residuals (interpolation, continuity up to InnCnt, boundary derivatives) rebuilt from the "
+                    "documentation with an own Bernstein evaluation in long double over sampling rates 1e-2..1e2; fit_spline on five group types "
+                    "(through the data from both sides, velocity continuity, rest-to-rest); dubins_curve<1..4> end pose, unit speed, curvature bound "
+                    "and length against six oracle words that are validated by forward integration; fit_bspline span; reparameterize_spline "
+                    "monotone / onto / start-speed bound with library assertions active.",
+            "note": "Spline evaluation is trusted as judged by C12; the statement's 1e-6 (constraints) and 1e-9 (poses) are used verbatim. Sampled executions only.",
+            "technique": "runtime monitoring: specification monitors with independent constraint/word oracles, ASan/UBSan + active library asserts"},
 }
